@@ -16,20 +16,43 @@ theorem stop_someFileExists (s : St) (e : Bool) (h : SomeFileExists s) : SomeFil
     simp only [stopRun, stopFin_cfg, stopVer_cfg, stopFin_fileExists, stopVer_fileExists]
     unfold stopAlloc
     split
-    · split
-      · simpa using h
-      · simp only [closeData_cfg, stopWB_cfg, stopClear_cfg, stopPeers_cfg, stopA_cfg,
-          closeData_fileExists, stopWB_fileExists, stopClear_fileExists, stopPeers_fileExists, stopA_fileExists]
-        rw [List.any_eq_true] at h ⊢
-        obtain ⟨f, hf, hfe⟩ := h
-        refine ⟨f, hf, ?_⟩
-        have hlt : f < s.cfg.flens.length := by
-          have := (List.mem_filter.1 hf).1
-          simpa using this
-        have hfe' : s.fileExists[f]?.getD false = true := by simpa using hfe
-        rw [getD_map_range]
-        simp [hlt, hfe']
+    · simp only [closeData_cfg, stopWB_cfg, stopClear_cfg, stopPeers_cfg, stopA_cfg,
+        closeData_fileExists, stopWB_fileExists, stopClear_fileExists, stopPeers_fileExists, stopA_fileExists]
+      rw [List.any_eq_true] at h ⊢
+      obtain ⟨f, hf, hfe⟩ := h
+      refine ⟨f, hf, ?_⟩
+      have hlt : f < s.cfg.flens.length := by
+        have := (List.mem_filter.1 hf).1
+        simpa using this
+      have hfe' : s.fileExists[f]?.getD false = true := by simpa using hfe
+      rw [getD_map_range]
+      simp [hlt, hfe']
     · simpa using h
+
+/-- While nothing is loaded a write result is stale: it is ignored (fix C04-F9), `doVerify` keeps its value. -/
+theorem handlePieceWriteDone_doVerify_unloaded (m : M) (w : WriteJob) (e : Bool) (hl : m.1.loaded = false) :
+    (handlePieceWriteDone m w e).1.doVerify = m.1.doVerify := by
+  rw [handlePieceWriteDone_eq]
+  dsimp only
+  split
+  · simp
+  split
+  · simp
+  · next hst => simp [hl] at hst
+
+theorem writerRun_doVerify_unloaded (m : M) (w : WriteJob) (hl : m.1.loaded = false) :
+    (writerRun m w).1.doVerify = m.1.doVerify := by
+  unfold writerRun
+  dsimp only
+  repeat' split
+  all_goals first
+    | (rw [handlePieceWriteDone_doVerify_unloaded _ _ _ (by simpa using hl)]; done)
+    | (rw [handlePieceWriteDone_doVerify_unloaded _ _ _ (by simpa using hl)]; simp; done)
+    | (simp; done)
+    | (rename_i hst; simp [hl] at hst)
+    | (rename_i hst _; simp [hl] at hst)
+    | (rename_i hst _ _; simp [hl] at hst)
+    | (rename_i hst _ _ _; simp [hl] at hst)
 
 /-- **A pending verify on a stopping torrent completes.**  Workers' part of an op whose handler left the torrent
 `Stopping` with `doVerify` set, every tracker answering, both storage gates released, the metadata known,
@@ -82,8 +105,8 @@ theorem verify_running_handle_fields (s : St) (p : Parked) (kn : Nat → Bool) (
   simp only [onSt_fst]
   rw [if_neg hns]
   simp only [onSt_fst]
-  refine ⟨by rw [stop_panicked]; exact hp, stop_stopAnn_of_errC _ _ he, trivial, trivial, by simp, by simp, by simp,
-    by simp, ?_⟩
+  refine ⟨by rw [stop_panicked]; exact hp, stop_stopAnn_of_errC _ _ he, trivial, trivial, by rw [stop_false_doVerify],
+    by simp, by simp, by simp, ?_⟩
   intro hex
   have := stop_someFileExists ({ s with persisted := none, doVerify := true }) false hex
   exact this
@@ -122,10 +145,16 @@ theorem runWorkers_hangs_dv (fuel : Nat) (m : M) (h : Life m.1) (hs : m.1.stopAn
     · simp only [hs, hh, i1, i2, Bool.false_eq_true, ↓reduceIte, Bool.false_and, Bool.not_true, Bool.and_false]
       split
       · next w hw =>
-        split
-        · have := ih (writerRun m w) (writerRun_life m w h) (writerRun_stopAnn_mono m w hs) (by simpa using hh)
-          simpa using this
-        · exact ⟨h.sa hs, hs, hh, rfl, h⟩
+        repeat' split
+        all_goals first
+          | exact ⟨h.sa hs, hs, hh, rfl, h⟩
+          | (have := ih (writerRun m w) (writerRun_life m w h) (writerRun_stopAnn_mono m w hs) (by simpa using hh)
+             rw [writerRun_doVerify_unloaded m w i3] at this
+             simpa using this)
+          | (have := ih (handlePieceWriteDone m w false) (handlePieceWriteDone_life m w false h)
+               (handlePieceWriteDone_stopAnn_mono m w false hs) (by simpa using hh)
+             rw [handlePieceWriteDone_doVerify_unloaded m w false i3] at this
+             simpa using this)
       · exact ⟨h.sa hs, hs, hh, rfl, h⟩
 
 /-- **verify on a torrent that is not stopped, general form.**  Without `stopHang = false`: either the op
@@ -199,7 +228,8 @@ theorem verifyHeld_running_handle_fields (s : St) (p : Parked) (kn : Nat → Boo
   rw [if_neg hns]
   simp only [onSt_fst]
   obtain ⟨g1, g2⟩ := stop_gates_off ({ s with persisted := none, doVerify := true }) false hgo hgr
-  exact ⟨by rw [stop_panicked]; exact hp, stop_stopAnn_of_errC _ _ he, g1, g2, by simp, by simp, by simp, by simp⟩
+  exact ⟨by rw [stop_panicked]; exact hp, stop_stopAnn_of_errC _ _ he, g1, g2, by rw [stop_false_doVerify], by simp,
+    by simp, by simp⟩
 
 /-- `verify_from_running_ends_stopped_or_hangs` for `Op.verifyHeld`, the storage gates being released. -/
 theorem verifyHeld_from_running_ends_stopped_or_hangs (s : St) (p : Parked) (kn : Nat → Bool) (h : Life s)
